@@ -25,6 +25,7 @@
 package main
 
 import (
+	"encoding/binary"
 	"encoding/json"
 	"flag"
 	"fmt"
@@ -32,9 +33,11 @@ import (
 	"math/rand"
 	"os"
 	"path/filepath"
+	"runtime/debug"
 	"strings"
 
 	"github.com/ethereum/go-ethereum/crypto"
+	"github.com/ethereum/go-ethereum/rlp"
 
 	"github.com/vechain/thor/v2/api"
 	"github.com/vechain/thor/v2/block"
@@ -75,6 +78,11 @@ type runStat struct {
 	ReadSibBelow  int      `json:"readsFromSiblingOneBelow"` // position one below best, not best's parent
 	ReadDescBest  int      `json:"readsFromDescendantOfBest"`
 	HeadsShape    int      `json:"addsOnSideBranchTip"` // new block with conflicts >= 1 whose parent was a head
+	Reopens       int      `json:"reopens"`
+	HookReaders   int      `json:"steppedSubscriptionReaders"`
+	HookReads     int      `json:"steppedSubscriptionReads"`
+	Stalls        int      `json:"subscriptionStalls"`
+	Plants        int      `json:"plantedIndexKeys"`
 	Subs          int      `json:"subscriptions"`
 	SubMsgs       int      `json:"subscriptionMessages"`
 	SubObsolete   int      `json:"subscriptionObsolete"`
@@ -107,6 +115,8 @@ type blk struct {
 type reader struct {
 	id   int
 	br   chain.BlockReader
+	hr   hookReader // a subscription reader driven Read by Read (hook VerifNewReader), else nil
+	kind string
 	held []string
 	pos  *blk // where the driver believes the reader stands
 	done bool
@@ -132,6 +142,11 @@ type run struct {
 	free    bool // a child of the best block may be stored without becoming best
 	ss      *subServer
 	wsubs   []*wsub
+	db      *muxdb.MuxDB
+	b0      *block.Block
+	dbOpt   muxdb.VerifOptions
+	subSeq  int
+	substep bool // subscription readers stepped Read by Read (needs the hook)
 }
 
 var devs = genesis.DevAccounts()
@@ -193,7 +208,10 @@ func newRun(seed int64, mode string) *run {
 	r := &run{rng: rand.New(rand.NewSource(seed)), bids: trace.NewInterner("b"), tids: trace.NewInterner("t"),
 		pids: trace.NewInterner("p"), byID: map[thor.Bytes32]*blk{}, perH: map[uint32]int{}, maxSib: 4}
 	r.st.Mode, r.st.Seed = mode, seed
-	db := muxdb.NewMem()
+	// odd seeds run the tries behind a real node cache, so that a re-open also means cold caches
+	r.dbOpt = muxdb.VerifOptions{CacheSizeMB: int(seed%2) * 8}
+	db := muxdb.NewWithEngine(muxdb.NewMem().VerifEngine(), r.dbOpt)
+	r.db = db
 	// a genesis that differs per seed, so that block ids differ between runs
 	gb := new(genesis.Builder).Timestamp(1_600_000_000 + uint64(seed%1_000_003)*10).GasLimit(thor.InitialGasLimit).
 		ForkConfig(&thor.ForkConfig{}).
@@ -203,6 +221,7 @@ func newRun(seed int64, mode string) *run {
 	repo, err := chain.NewRepository(db, b0)
 	must(err)
 	r.repo = repo
+	r.b0 = b0
 	g := &blk{id: b0.Header().ID(), ts: b0.Header().Timestamp()}
 	g.name = r.bids.Name(g.id[:])
 	r.blocks = []*blk{g}
@@ -501,8 +520,20 @@ func (r *run) queryAll(h *blk, others []*blk) {
 
 // ---------------------------------------------------------------------------------------------- readers
 
-func (r *run) startReader(pos *blk) {
-	rd := &reader{id: len(r.readers) + 1, br: r.repo.NewBlockReader(pos.id), held: names(r.chainOf(pos)), pos: pos}
+func (r *run) startReader(pos *blk) *reader { return r.startReaderKind(pos, "") }
+
+// startReaderKind: kind "" = chain.BlockReader; block | beat | beat2 = the subscription reader of that kind, built by
+// the handler's own constructor (sharing its message caches) and driven Read by Read through the hook.
+func (r *run) startReaderKind(pos *blk, kind string) *reader {
+	rd := &reader{id: len(r.readers) + 1, held: names(r.chainOf(pos)), pos: pos, kind: kind}
+	if kind == "" {
+		rd.br = r.repo.NewBlockReader(pos.id)
+	} else {
+		hr, err := newHookReader(r.server(), kind, pos.id)
+		must(err)
+		rd.hr = hr
+		r.st.HookReaders++
+	}
 	r.readers = append(r.readers, rd)
 	r.st.Readers++
 	on := false
@@ -514,7 +545,46 @@ func (r *run) startReader(pos *blk) {
 	if !on {
 		r.st.ReaderAband++
 	}
-	r.emit(trace.Ev{"e": "RStart", "r": rd.id, "pos": pos.name, "held": append([]string{}, rd.held...)})
+	r.emit(trace.Ev{"e": "RStart", "r": rd.id, "pos": pos.name, "kind": kind, "held": append([]string{}, rd.held...)})
+	return rd
+}
+
+type readMsg struct {
+	id  thor.Bytes32
+	obs bool
+}
+
+// readOnce performs one Read of either flavour and returns the messages a subscriber would get.
+func (r *run) readOnce(rd *reader) ([]readMsg, error) {
+	var out []readMsg
+	if rd.hr != nil {
+		msgs, _, err := rd.hr.Read()
+		if err != nil {
+			return nil, err
+		}
+		for _, m := range msgs {
+			data, err := json.Marshal(m)
+			must(err)
+			var w wireMsg
+			must(json.Unmarshal(data, &w))
+			out = append(out, readMsg{w.ID, w.Obsolete})
+		}
+		r.st.HookReads++
+		return out, nil
+	}
+	ebs, err := rd.br.Read()
+	if err != nil {
+		return nil, err
+	}
+	for _, eb := range ebs {
+		// through api.ConvertBlock exactly as api/subscriptions' blockReader does
+		msg, err := api.ConvertBlock(eb)
+		if err != nil {
+			return nil, fmt.Errorf("ConvertBlock: %w", err)
+		}
+		out = append(out, readMsg{msg.ID, msg.Obsolete})
+	}
+	return out, nil
 }
 
 // step performs one Read and lets the naive subscriber apply it: drop what is flagged obsolete, append the rest.
@@ -535,7 +605,7 @@ func (r *run) step(rd *reader) int {
 	case rd.pos.num+1 == r.best.num && r.best.parent != rd.pos:
 		r.st.ReadSibBelow++
 	}
-	ebs, err := rd.br.Read()
+	ebs, err := r.readOnce(rd)
 	if err != nil {
 		r.st.Errors = append(r.st.Errors, "BlockReader.Read: "+err.Error())
 		ev := trace.Ev{"e": "Error", "what": "BlockReader.Read", "r": rd.id, "err": err.Error(), "pos": rd.pos.name, "best": r.best.name}
@@ -549,15 +619,10 @@ func (r *run) step(rd *reader) int {
 		return 0
 	}
 	out := []trace.Ev{}
-	for _, eb := range ebs {
-		msg, err := api.ConvertBlock(eb)
-		if err != nil {
-			r.fail("ConvertBlock", err)
-			return 0
-		}
-		n := r.bname(msg.ID)
-		out = append(out, trace.Ev{"b": n, "obs": msg.Obsolete})
-		if msg.Obsolete {
+	for _, msg := range ebs {
+		n := r.bname(msg.id)
+		out = append(out, trace.Ev{"b": n, "obs": msg.obs})
+		if msg.obs {
 			r.st.Obsolete++
 			k := rd.held[:0:0]
 			for _, x := range rd.held {
@@ -572,16 +637,90 @@ func (r *run) step(rd *reader) int {
 	}
 	r.st.Reads++
 	if len(ebs) > 0 {
-		if last := ebs[len(ebs)-1]; !last.Obsolete {
-			if b, ok := r.byID[last.Header().ID()]; ok {
+		if last := ebs[len(ebs)-1]; !last.obs {
+			if b, ok := r.byID[last.id]; ok {
 				rd.pos = b
 			}
-		} else if b, ok := r.byID[last.Header().ParentID()]; ok {
-			rd.pos = b
+		} else if b, ok := r.byID[last.id]; ok && b.parent != nil {
+			rd.pos = b.parent
 		}
 	}
-	r.emit(trace.Ev{"e": "Read", "r": rd.id, "out": out, "held": append([]string{}, rd.held...)})
+	r.emit(trace.Ev{"e": "Read", "r": rd.id, "kind": rd.kind, "out": out, "held": append([]string{}, rd.held...)})
 	return len(ebs)
+}
+
+// reopen closes everything that lives in memory and opens a fresh MuxDB (cold caches) and a fresh chain.Repository over
+// the same key-value engine, as a node restart does. What the new repository says about itself is logged; readers are
+// re-created at the positions they had reached (a subscriber reconnects with ?pos=), subscriptions start over.
+func (r *run) reopen() {
+	r.quiet()
+	r.closeSubs()
+	r.ss, r.wsubs = nil, nil
+	r.db = muxdb.NewWithEngine(r.db.VerifEngine(), r.dbOpt)
+	repo, err := chain.NewRepository(r.db, r.b0)
+	if err != nil {
+		r.fail("NewRepository (re-open)", err)
+		return
+	}
+	r.repo = repo
+	r.st.Reopens++
+	heads, err := repo.ScanHeads(0)
+	if err != nil {
+		r.fail("ScanHeads", err)
+		return
+	}
+	hn := []string{}
+	for _, h := range heads {
+		hn = append(hn, r.bname(h))
+	}
+	mx, err := repo.GetMaxBlockNum()
+	if err != nil {
+		r.fail("GetMaxBlockNum", err)
+		return
+	}
+	r.emit(trace.Ev{"e": "Reopen", "best": r.bname(repo.BestBlockSummary().Header.ID()), "heads": hn, "maxnum": mx,
+		"g": r.bname(repo.GenesisBlock().Header().ID())})
+	for _, rd := range r.readers {
+		if rd.done {
+			continue
+		}
+		if rd.hr != nil {
+			hr, err := newHookReader(r.server(), rd.kind, rd.pos.id)
+			must(err)
+			rd.hr = hr
+		} else {
+			rd.br = repo.NewBlockReader(rd.pos.id)
+		}
+	}
+}
+
+// qConfl asks GetConflicts for every height.
+func (r *run) qConfl() {
+	var top uint32
+	for h := range r.perH {
+		if h > top {
+			top = h
+		}
+	}
+	q := []trace.Ev{}
+	for n := uint32(0); n <= top+1; n++ {
+		ids, err := r.repo.GetConflicts(n)
+		if err != nil {
+			r.fail("GetConflicts", err)
+			return
+		}
+		c, err := r.repo.ScanConflicts(n)
+		if err != nil {
+			r.fail("ScanConflicts", err)
+			return
+		}
+		ns := []string{}
+		for _, id := range ids {
+			ns = append(ns, r.bname(id))
+		}
+		q = append(q, trace.Ev{"n": n, "ids": ns, "count": c})
+	}
+	r.emit(trace.Ev{"e": "Confl", "q": q})
 }
 
 func (r *run) drain(rd *reader) {
@@ -697,7 +836,17 @@ func (r *run) pickTxs(parent *blk, clean bool, maxTx int) ([]*txr, []bool, bool)
 }
 
 func (r *run) tree(maxBlocks int, clean bool) {
+	reopenAt := 4 + r.rng.Intn(max(1, maxBlocks-5))
 	for len(r.blocks) <= maxBlocks {
+		if len(r.blocks) == reopenAt {
+			// restart in the middle: every query again from the re-opened store, readers continue where they were
+			r.reopen()
+			for _, h := range r.blocks {
+				r.queryAll(h, r.blocks)
+			}
+			r.qConfl()
+			r.qHeads(0)
+		}
 		// parent: a tip, the best block, or any known block; never more than maxSib blocks per height
 		var parent *blk
 		for try := 0; try < 50; try++ {
@@ -738,8 +887,13 @@ func (r *run) tree(maxBlocks int, clean bool) {
 		r.qTs(r.blocks[r.rng.Intn(len(r.blocks))])
 		r.qHeads(uint32(r.rng.Intn(int(r.best.num) + 2)))
 		// readers: start at any known block (abandoned branches included), step interleaved with AddBlocks
-		if len(r.readers) < 4 && r.rng.Intn(3) == 0 {
-			r.startReader(r.blocks[r.rng.Intn(len(r.blocks))])
+		if len(r.readers) < 5 && r.rng.Intn(3) == 0 {
+			if r.substep && !r.free && r.rng.Intn(3) != 0 {
+				// a subscription reader of the handler (shared caches), one Read at a time: AddBlocks fall between its Reads
+				r.startReaderKind(r.notAboveBest(), subKinds[r.rng.Intn(3)])
+			} else {
+				r.startReader(r.blocks[r.rng.Intn(len(r.blocks))])
+			}
 		}
 		for _, rd := range r.readers {
 			for k := r.rng.Intn(3); k > 0 && !rd.done; k-- {
@@ -752,9 +906,25 @@ func (r *run) tree(maxBlocks int, clean bool) {
 			r.startSub(subKinds[(len(r.wsubs)+int(r.st.Seed%5+5))%5], r.notAboveBest())
 		}
 	}
-	// one reader from every known block at the end, then everybody reads until quiescent
-	for _, b := range r.blocks {
-		r.startReader(b)
+	// one reader from every known block at the end; a restart while they are under way; then everybody reads until
+	// quiescent
+	for i, b := range r.blocks {
+		if r.substep && !r.free && b.num <= r.best.num && i%3 == 0 {
+			r.startReaderKind(b, subKinds[i%3])
+		} else {
+			r.startReader(b)
+		}
+	}
+	for _, rd := range r.readers {
+		if !rd.done && r.rng.Intn(2) == 0 {
+			r.step(rd)
+		}
+	}
+	r.reopen()
+	r.qConfl()
+	for _, h := range r.blocks {
+		r.qByNum(h)
+		r.qLookup(h, r.txs)
 	}
 	for _, rd := range r.readers {
 		r.drain(rd)
@@ -763,6 +933,7 @@ func (r *run) tree(maxBlocks int, clean bool) {
 		for _, k := range subKinds {
 			r.startSub(k, r.notAboveBest())
 		}
+		r.quiet()
 	}
 }
 
@@ -865,7 +1036,9 @@ func (r *run) long() {
 		}
 	}
 	tips["side"] = tips["trunk"]
+	r.plant(tips["trunk"])
 	lastQ := 0
+	reopened := false
 	for tips["trunk"].num < L || tips["side"].num < Ls {
 		// the two long branches leapfrog: mostly the lagging one grows, so best flips between them again and again
 		// and the reorganisation depth grows with the distance from the fork point
@@ -918,6 +1091,10 @@ func (r *run) long() {
 				r.step(rd)
 			}
 		}
+		if !reopened && len(r.blocks) > 120 {
+			reopened = true
+			r.reopen()
+		}
 		if len(r.blocks)-lastQ >= 24 {
 			lastQ = len(r.blocks)
 			var ts []*blk
@@ -936,6 +1113,9 @@ func (r *run) long() {
 			r.qHeads(uint32(r.rng.Intn(int(n) + 1)))
 		}
 	}
+	// restart: the final lookups are answered by a re-opened store (cold caches, index read back from the kv engine)
+	r.reopen()
+	r.qConfl()
 	// every known block as head: each tx is seen from heads on both sides of the 100-block boundary
 	for _, h := range r.blocks {
 		r.qLookup(h, r.txs)
@@ -1011,6 +1191,7 @@ func (r *run) long300() {
 			return
 		}
 	}
+	r.reopen()
 	// heads of both branches below, between and above the inclusion heights
 	for _, which := range []string{"trunk", "side"} {
 		for x := tips[which]; x.num > f; x = x.parent {
@@ -1023,6 +1204,33 @@ func (r *run) long300() {
 	}
 	r.qExcl(tips["trunk"], []*blk{tips["side"]})
 	r.qExcl(tips["side"], []*blk{tips["trunk"]})
+}
+
+// plant writes two keys straight into the chain.txi store, below the repository: the 8-byte filter key of a transaction
+// that is never included anywhere, and an index entry (on a real block of the chain) of a FOREIGN 32-byte id that shares
+// those 8 bytes. On the indexed path HasTransaction passes the filter and must then still answer by the full id.
+func (r *run) plant(on *blk) {
+	u := r.newTx(0, 1000, nil, true)
+	id := u.tx.ID()
+	x := id
+	for i := 8; i < 32; i++ {
+		x[i] ^= 0xa5
+	}
+	store := r.db.NewStore("chain.txi")
+	must(store.Put(id[:8], nil))
+	sum, err := r.repo.GetBlockSummary(on.id)
+	must(err)
+	key := append([]byte{}, x[:]...)
+	key = binary.AppendUvarint(key, uint64(on.num))
+	key = binary.AppendUvarint(key, uint64(sum.Conflicts))
+	val, err := rlp.EncodeToBytes(&struct {
+		Index    uint64
+		Reverted bool
+	}{0, false})
+	must(err)
+	must(store.Put(key, val))
+	r.st.Plants++
+	r.emit(trace.Ev{"e": "Plant", "pfx": r.pids.Name(id[:8]), "x": "x-" + u.name, "num": on.num, "conflicts": sum.Conflicts})
 }
 
 func (r *run) finish() {
@@ -1051,13 +1259,36 @@ func (r *run) finish() {
 	}
 }
 
-func oneRun(seed int64, mode string, blocks int) (r *run) {
+// panicSite returns the function that panicked (first frame below the runtime's panic machinery).
+func panicSite(stack string) string {
+	lines := strings.Split(stack, "\n")
+	seen := false
+	for _, l := range lines {
+		if strings.HasPrefix(l, "panic(") {
+			seen = true
+			continue
+		}
+		if !seen || strings.HasPrefix(l, "\t") || strings.HasPrefix(l, "runtime.") || l == "" {
+			continue
+		}
+		return l
+	}
+	return ""
+}
+
+func oneRun(seed int64, mode string, blocks int, substep bool) (r *run) {
 	r = newRun(seed, mode)
+	r.substep = substep && haveSubsHook
 	defer func() {
 		if e := recover(); e != nil {
-			// a panic inside the real code is an observation
+			// a panic inside the real code is an observation; one in the driver's own code is harness trouble
+			site := panicSite(string(debug.Stack()))
+			if !strings.Contains(site, "github.com/vechain/thor/v2/") {
+				fmt.Println("HARNESS-ERROR panic in the driver:", e, "at", site)
+				os.Exit(3)
+			}
 			r.st.Errors = append(r.st.Errors, fmt.Sprint("panic: ", e))
-			r.emit(trace.Ev{"e": "Error", "what": "panic", "err": fmt.Sprint(e)})
+			r.emit(trace.Ev{"e": "Error", "what": "panic", "err": fmt.Sprint(e), "at": site})
 			r.finish()
 		}
 	}()
@@ -1086,13 +1317,14 @@ func main() {
 	seed := flag.Int64("seed", 1, "seed")
 	mode := flag.String("mode", "tree", "comma separated modes, cycled over the runs")
 	blocks := flag.Int("blocks", 12, "blocks per tree run")
+	substep := flag.Bool("substep", false, "drive subscription readers Read by Read (needs hooks/subscriptions.patch and -tags verifsubs)")
 	flag.Parse()
 	modes := strings.Split(*mode, ",")
 	must(os.MkdirAll(*out, 0o755))
 	var all []trace.Ev
 	var stats []runStat
 	for i := 0; i < *runs; i++ {
-		r := oneRun((*seed*7919+int64(i))*104729+12345, modes[i%len(modes)], *blocks)
+		r := oneRun((*seed*7919+int64(i))*104729+12345, modes[i%len(modes)], *blocks, *substep)
 		all = append(all, r.evs...)
 		stats = append(stats, r.st)
 	}
